@@ -445,7 +445,7 @@ func (w *SrvWorld) latencyFor(op *Op) int64 {
 func (w *SrvWorld) resolveAt(op *Op) int64 {
 	now := w.K.Now()
 	if op.At.Ref == "" {
-		t := w.prevIssue + op.At.GapNS
+		t := w.prevIssue + freeGap(w.K, w.P, w.opIdx-1, op.At.GapNS)
 		if t < now {
 			t = now
 		}
